@@ -1220,6 +1220,125 @@ def exConflict : Doc :=
 example : resolves 4 exConflict 1 = true ∧ bpOrderFree exConflict 1 1 = false ∧
     newCompsOk 4 exConflict 1 [⟨1, 40, false, [(23, [.ch 121])], [], []⟩] = true := by decide
 
+/-! ## components are identified by (stage, name): names shared between stages
+
+The stored description is read back by looking components up by stage AND name.  For every description — also one in
+which several stages use the same component name — every such lookup in the stored description answers the stored
+form of what the same lookup answers in the description of the experiment that wrote it: no component is shadowed,
+merged with or replaced by a namesake of another stage, after any number of load + store cycles. -/
+
+private theorem find?_map_ids (f : Comp → Comp) (hs : ∀ c, (f c).stage = c.stage) (hn : ∀ c, (f c).name = c.name)
+    (s : Nat) (n : Name) : ∀ cs : List Comp,
+    (cs.map f).find? (fun c => c.stage == s && c.name == n)
+      = (cs.find? (fun c => c.stage == s && c.name == n)).map f
+  | [] => rfl
+  | c :: r => by
+    simp only [List.map_cons, List.find?_cons, hs, hn]
+    cases (c.stage == s && c.name == n) with
+    | true => rfl
+    | false => exact find?_map_ids f hs hn s n r
+
+/-- **Lookup by (stage, name) commutes with the store**: what the stored description answers for `(s, n)` is the
+stored form of the component the writer's description answers for `(s, n)` (and nothing if the writer has none). -/
+theorem stored_lookup (N : Nat) (L : Doc) (P : Name) (s : Nat) (n : Name) :
+    findComp (flatten N L P) s n = (findComp L s n).map (flatComp N L P) :=
+  find?_map_ids (flatComp N L P) (flatComp_stage N L P) (flatComp_name N L P) s n L.comps
+
+/-- … after any number of load + store cycles. -/
+theorem stored_lookup_survives_cycles (N : Nat) (E : Exp) (h : resolves N E.doc E.plat = true) (k : Nat)
+    (s : Nat) (n : Name) :
+    findComp (storeAfterCycles N E k) s n = (findComp E.doc s n).map (flatComp N E.doc E.plat) := by
+  rw [store_load_cycles N E h k]
+  exact stored_lookup N E.doc E.plat s n
+
+/-- **Namesakes of different stages stay apart**: two components that share a name and differ in the stage are both
+found in the stored description, each under its own stage, each as its own stored form, and the two stored forms
+differ. -/
+theorem namesakes_stay_apart (N : Nat) (L : Doc) (P : Name) (a b : Comp)
+    (ha : findComp L a.stage a.name = some a) (hb : findComp L b.stage b.name = some b)
+    (_hn : a.name = b.name) (hst : a.stage ≠ b.stage) :
+    findComp (flatten N L P) a.stage a.name = some (flatComp N L P a)
+      ∧ findComp (flatten N L P) b.stage b.name = some (flatComp N L P b)
+      ∧ flatComp N L P a ≠ flatComp N L P b := by
+  refine ⟨by rw [stored_lookup, ha]; rfl, by rw [stored_lookup, hb]; rfl, ?_⟩
+  intro heq
+  apply hst
+  have := congrArg Comp.stage heq
+  rwa [flatComp_stage, flatComp_stage] at this
+
+/-- a description without two components of the same (stage, name, kind) is stored as one -/
+theorem distinct_components_stored_distinct (N : Nat) (L : Doc) (P : Name) (h : (compIds L).Nodup) :
+    (compIds (flatten N L P)).Nodup := by
+  rw [components_survive]; exact h
+
+/-- the stored description resolves exactly one configuration per non-document component of the writer, in the
+writer's order, under the writer's (stage, name) -/
+theorem resolved_ids_survive (N : Nat) (L : Doc) (P Q : Name) :
+    (resolveAll N (flatten N L P) Q).map (fun r => (r.stage, r.name))
+      = (resolveAll N L P).map (fun r => (r.stage, r.name)) := by
+  simp only [resolveAll, flatten, List.map_map, List.filter_map]
+  simp [Function.comp_def, resolveComp, flatComp_stage, flatComp_name, flatComp_isDoc]
+
+/-! ### a writer keyed by the name alone (NOT the code that exists; `Instance.keepLastByName`)
+
+Why no test with stage-unique names tells such a writer from the real one, and why every description with a shared name
+does: -/
+
+private theorem keepLastByName_length_le : ∀ cs : List Comp, (keepLastByName cs).length ≤ cs.length
+  | [] => Nat.le_refl _
+  | c :: r => by
+    have ih := keepLastByName_length_le r
+    unfold keepLastByName
+    split
+    · exact Nat.le_succ_of_le ih
+    · simpa using ih
+
+/-- with names that are unique across the whole description the name-keyed writer writes every component -/
+theorem name_keyed_writer_exact_on_unique_names : ∀ cs : List Comp, (cs.map (·.name)).Nodup → keepLastByName cs = cs
+  | [], _ => rfl
+  | c :: r, h => by
+    rw [List.map_cons, List.nodup_cons] at h
+    have hno : r.any (fun d => d.name == c.name) = false := by
+      cases hx : r.any (fun d => d.name == c.name) with
+      | false => rfl
+      | true =>
+        obtain ⟨d, hd, he⟩ := List.any_eq_true.mp hx
+        exact absurd (List.mem_map.mpr ⟨d, hd, by simpa using he⟩) h.1
+    unfold keepLastByName
+    rw [hno, name_keyed_writer_exact_on_unique_names r h.2]
+    rfl
+
+/-- as soon as two components share a name (in different stages or not) the name-keyed writer writes fewer components
+than the experiment has -/
+theorem name_keyed_writer_loses_a_namesake : ∀ cs : List Comp, ¬ (cs.map (·.name)).Nodup →
+    (keepLastByName cs).length < cs.length
+  | [], h => absurd List.nodup_nil h
+  | c :: r, h => by
+    have hle := keepLastByName_length_le r
+    unfold keepLastByName
+    split
+    · exact Nat.lt_succ_of_le hle
+    · rename_i hany
+      have hnot : c.name ∉ r.map (·.name) := by
+        intro hm
+        obtain ⟨d, hd, he⟩ := List.mem_map.mp hm
+        exact hany (List.any_eq_true.mpr ⟨d, hd, by simpa using he⟩)
+      have hr : ¬ (r.map (·.name)).Nodup := fun hn => h (by rw [List.map_cons, List.nodup_cons]; exact ⟨hnot, hn⟩)
+      have := name_keyed_writer_loses_a_namesake r hr
+      simpa using this
+
+/-- stage 0 and stage 1 both have a component named 30, with different options; stage 1 has a second component -/
+def exNamesakes : Doc :=
+  { vars := [(0, ⟨[(10, [.ch 49])], [(0, [(11, [.ch 97])]), (1, [(11, [.ch 98])])]⟩)]
+    bps := []
+    comps := [ { stage := 0, name := 30, isDoc := false, opts := [(23, [.ch 120, .ref 11])], vars := [], ovr := [] },
+               { stage := 1, name := 30, isDoc := false, opts := [(23, [.ch 121, .ref 11])], vars := [], ovr := [] },
+               { stage := 1, name := 31, isDoc := false, opts := [(23, [.ref 10])], vars := [], ovr := [] } ] }
+example : resolves 4 exNamesakes 0 = true ∧ (compIds exNamesakes).Nodup
+    ∧ ¬ ((exNamesakes.comps.map (·.name)).Nodup) := by decide
+example : (findComp (flatten 4 exNamesakes 0) 0 30).map (·.opts) = some [(23, [.ch 120, .ref 11])]
+    ∧ (findComp (flatten 4 exNamesakes 0) 1 30).map (·.opts) = some [(23, [.ch 121, .ref 11])] := by decide
+
 end St4sd.C07
 
 /-! ## the instance directory: top-level folders and the references into them
